@@ -438,6 +438,7 @@ class C14:
 
     def __init__(self):
         self._cache = {}
+        self._timeouts = 0
 
     # ---------------------------------------------------------------- generate
     def generate(self, rng, tier):
@@ -613,11 +614,13 @@ class C14:
 
     def impl(self, c):
         old = signal.signal(signal.SIGALRM, _on_alarm)
-        signal.setitimer(signal.ITIMER_REAL, IMPL_TIMEOUT)
+        budget = IMPL_TIMEOUT if not self._timeouts else 3      # after one hang, do not wait long again
+        signal.setitimer(signal.ITIMER_REAL, budget)
         try:
             obs = self._impl(c)
         except ImplTimeout:
-            obs = {"timeout": IMPL_TIMEOUT}
+            self._timeouts += 1
+            obs = {"timeout": budget}
         finally:
             signal.setitimer(signal.ITIMER_REAL, 0)
             signal.signal(signal.SIGALRM, old)
